@@ -88,7 +88,7 @@ def section_snapshot(p):
     return repr((p.trace_codes, p.kernel_extensions, p.dyld_modules, p.processes, p.images))
 
 
-def judge(blob, threads, recs, kseq, cpu, parser=None, offset=0):
+def judge(blob, threads, recs, kseq, cpu, parser=None, offset=0, buffered=0):
     """offset: the dump begins `offset` bytes into the stream (the caller consumed a prefix); the stream is handed over positioned there."""
     bad = []
     p = parser if parser is not None else KdBufParser({99: 1}, {1: 'stale'})
@@ -98,6 +98,9 @@ def judge(blob, threads, recs, kseq, cpu, parser=None, offset=0):
     late_table = []
     stream = io.BytesIO(bytes((i * 11 + 3) % 255 + 1 for i in range(offset)) + blob)
     stream.seek(offset)
+    if buffered:
+        # the kind of stream open(path, 'rb') gives, with a small buffer: tags and words straddle buffer boundaries
+        stream = io.BufferedReader(stream, buffer_size=buffered)
     try:
         for x in p.parse(stream):
             if tables_at_first is None:
@@ -203,7 +206,7 @@ class C03(Check):
             'included) x both chunk-size conventions. Sub-space "meta": all sequences of <=3 (quick) / <=4 (thorough) '
             'metadata/log blocks over 7 kinds (dyld modules, trace codes, processes, kexts, images, log events, unknown tag) '
             'with occurrence-numbered payloads, the string index placed at every position, x thread maps (4) x gap bytes after '
-            'MORE_EVENTS (4). Sub-space "blocks": every filler length 362..531, 3946..4115, 8042..8211 before the stackshot sentinel, before the thread-map tag and after MORE_EVENTS (a tag at / across every 512/4096/8192-byte block boundary). Sub-space "gapraw": the next events tag 0..80 bytes after a MORE_EVENTS tag, in every chunking of 3 records. Sub-space "tagged": records whose first bytes are container tags / the v3 magic, in every position and chunking. Sub-space "order": records with equal and decreasing timestamps in every order and chunking stay in file order. Sub-space "cli": the processes / kexts / images commands print the sections as JSON. Sub-space "long": 2^k-1, 2^k, 2^k+1 records (k = 6..12) in 1..3 chunks; 2^k-1..2^k+1 chunks (k = 6..11) of one record; dumps that begin 1..4100 bytes into the stream. Every section is read twice and must not change. An embedded code table cut into 2..5 blocks inside its multi-byte characters. Log blocks whose plist stores a time-zone / date dict, a backtrace frame or a whole record once and refers to it several times. Sub-space "reuse": ONE parser object parses '
+            'MORE_EVENTS (4). Sub-space "blocks": every filler length 362..531, 3946..4115, 8042..8211 before the stackshot sentinel, before the thread-map tag and after MORE_EVENTS (a tag at / across every 512/4096/8192-byte block boundary). Sub-space "gapraw": the next events tag 0..80 bytes after a MORE_EVENTS tag, in every chunking of 3 records. Sub-space "tagged": records whose first bytes are container tags / the v3 magic, in every position and chunking. Sub-space "order": records with equal and decreasing timestamps in every order and chunking stay in file order. Sub-space "cli": the processes / kexts / images commands print the sections as JSON. Sub-space "long": 2^k-1, 2^k, 2^k+1 records (k = 6..12) in 1..3 chunks; 2^k-1..2^k+1 chunks (k = 6..11) of one record; dumps that begin 1..4100 bytes into the stream; the filler sweep around 512 also through io.BufferedReader with 512- and 64-byte buffers. Every section is read twice and must not change. An embedded code table cut into 2..5 blocks inside its multi-byte characters. Log blocks whose plist stores a time-zone / date dict, a backtrace frame or a whole record once and refers to it several times. Sub-space "reuse": ONE parser object parses '
             'two dumps in turn (6 x 6 block sequences x 3 map pairs); the second parse must leave the second dump\'s metadata only. Oracle: events all/in order/== independent decode/before any log; tables after the thread-map '
             'chunk and after logs; list-valued sections concatenated in file order; scalar sections equal one of their '
             'payloads; logs in order with strings resolved. non-trivial = >=2 chunks or >=2 blocks. states = distinct '
@@ -347,6 +350,13 @@ class C03(Check):
                     acc.case(nontrivial=True, transitions=4, state=h64(('blocks', which, L)), outcome=h64(('blocks', which)))
                     for sig, detail in bad:
                         acc.violation(sig + ':long-filler', {'kind': 'blocks', 'which': which, 'len': L}, detail)
+                    if target == 512:
+                        # the same dumps through a buffered reader whose buffer is 512 / 64 bytes
+                        for bs in (512, 64):
+                            bad = judge(blob, THREADMAPS[0], recs, ['codes'], None, buffered=bs)
+                            acc.case(nontrivial=True, transitions=4, state=h64(('blocks-buffered', which, L, bs)), outcome=h64(('blocks-buffered', which)))
+                            for sig, detail in bad:
+                                acc.violation(sig + ':buffered-reader', {'kind': 'blocks', 'which': which, 'len': L, 'buffer': bs}, detail)
         elif desc[0] == 'gapraw':
             # nothing is known about what follows a MORE_EVENTS tag except that the next events tag does: every distance 0..80
             recs = RECS[:3]
